@@ -21,11 +21,14 @@ def sample_dirs():
     return _DIRS
 
 
+_HINT = []       # extra candidate directions for the scene being measured (e.g. the direction a grazing pair was pushed along)
+
+
 def extent_min(A, B, shift):
     """min over sampled unit n of the extent of A (-) (B + shift) along n: an upper bound of the penetration depth if all
     extents are >= 0, otherwise -min is a lower bound of the gap.  Returns (min extent, argmin direction)."""
     best, bn = 1e300, None
-    for n in sample_dirs():
+    for n in list(sample_dirs()) + [h for v in _HINT for h in (v, -v)]:
         e = A.support(n) + B.support(-n) - float(n @ shift)
         if e < best:
             best, bn = e, n
@@ -303,6 +306,41 @@ def gen(tier, seed, algo):
             recs.append(rec)
             meta[rid] = {"algo": algo, "A": X.describe(), "B": Y.describe(), "clsA": X.classes()[0], "clsB": Y.classes()[0],
                          "lift": [lift[0], lift[1].tolist(), lift[2].tolist()], "family": "tiny-inflated"}
+    # polytopes that barely overlap: a disjoint pair pushed together along its witness direction until the depth is 1e-7 .. 1e-5
+    # (below and just above EPA's own thresholds of 1e-6: seed C07-7 flips every face whose plane is within 1e-6 of the origin);
+    # judged in the upper-bound form with the push direction among the candidates
+    if algo == "epa":
+        for i in range(120 if tier == "quick" else 3000):
+            MA, _ = rng.choice(S.CUBE); MB, _ = rng.choice(S.CUBE)
+            general = rng.random() < 0.4
+            A = NW.Body(rng.choice(flats_s), MA, [rng.randint(-2, 2) for _ in range(3)], 0)
+            off = [rng.randint(-6, 6) for _ in range(3)]
+            if general:
+                B0 = NW.Body(rng.choice(flats_s), np.eye(3, dtype=int), A.t + np.array(off, dtype=float), 0, None, R=S.random_rotation(rng))
+                B0.general = True
+            else:
+                B0 = NW.Body(rng.choice(flats_s), MB, [int(A.t[k]) + off[k] for k in range(3)], 0)
+            eps = rng.choice((1e-7, 3e-7, 8e-7, 3e-6, 1e-5))
+            B = NW.near_touch(A, B0, -eps)
+            if B is None:
+                continue
+            if general:
+                B.general = True
+            nd = np.asarray(B.t, dtype=float) - np.asarray(B0.t, dtype=float)
+            if not np.linalg.norm(nd) > 0:
+                continue
+            _HINT[:] = [nd / np.linalg.norm(nd)]
+            for X, Y in ((A, B), (B, A)):
+                n += 1
+                rid = f"e{n}"
+                clsX, clsY = rng.choice(X.classes()), rng.choice(Y.classes())
+                rec = measure_epa(rid, X, Y, NW.IDENT, clsX, clsY)
+                if rec is None:
+                    continue
+                recs.append(rec)
+                meta[rid] = {"algo": algo, "A": X.describe(), "B": Y.describe(), "clsA": clsX, "clsB": clsY,
+                             "lift": [1.0, np.eye(3).tolist(), [0, 0, 0]], "family": f"grazing-polytope eps={eps}"}
+            _HINT[:] = []
     # skinny and flat polytopes in general relative orientation, overlapping: the portal discovery of MPR takes its rarely used
     # replacement branches there (a rod through a plate, two rods, a triangle / segment hull through a box)
     skinny = [{"kind": "box", "a": 16, "b": 0.2, "c": 0.2}, {"kind": "box", "a": 10, "b": 10, "c": 0.2}, {"kind": "box", "a": 0.2, "b": 0.2, "c": 20},
